@@ -1052,3 +1052,37 @@ def c18_table(v):
     newer = sorted(h for h in KNOWN_HASHES if h > pmax)
     if newer:
         v.notes = getattr(v, 'notes', []) + ["checkpoints above the pinned maximum (not verifiable here): %s" % newer[:10]]
+
+
+# ---------------------------------------------------------------------------------------------------- C15 (atomic save)
+
+@LM.lemma("C15.save-structure", props=["C15"])
+def c15_save(v):
+    """save_wallet never opens wallet.json itself for writing: it writes a temporary file completely (the `with` block
+    closes it) and then replaces wallet.json by it in one os.replace (A-RENAME: atomic with respect to crashes).  Scan of the
+    real function; the crash behaviour itself is exercised by the bounded part."""
+    import ast, inspect, textwrap
+    import skepticoin.wallet as w
+    st = State()
+    node = ast.parse(textwrap.dedent(inspect.getsource(w.save_wallet))).body[0]
+    body = [b for b in node.body if not (isinstance(b, ast.Expr) and isinstance(b.value, ast.Constant))]
+    opened_for_write = []
+    for n in ast.walk(node):
+        if isinstance(n, ast.Call) and isinstance(n.func, ast.Name) and n.func.id == 'open':
+            mode = n.args[1].value if len(n.args) > 1 and isinstance(n.args[1], ast.Constant) else \
+                next((k.value.value for k in n.keywords if k.arg == 'mode' and isinstance(k.value, ast.Constant)), 'r')
+            name = n.args[0].value if n.args and isinstance(n.args[0], ast.Constant) else None
+            if any(ch in str(mode) for ch in 'wax+'):
+                opened_for_write.append(name)
+    v.oblige(st, z3.BoolVal(bool(opened_for_write) and all(nm is not None and nm != 'wallet.json' for nm in opened_for_write)),
+             "C15:lemma:save-writes-only-a-temporary-file", "files opened for writing: %s" % opened_for_write)
+    last = body[-1] if body else None
+    ok_last = (isinstance(last, ast.Expr) and isinstance(last.value, ast.Call) and ast.unparse(last.value.func) == 'os.replace'
+               and len(last.value.args) == 2 and all(isinstance(a_, ast.Constant) for a_ in last.value.args)
+               and last.value.args[1].value == 'wallet.json' and opened_for_write == [last.value.args[0].value])
+    v.oblige(st, z3.BoolVal(bool(ok_last)), "C15:lemma:save-ends-with-one-atomic-replace",
+             "last statement: %s" % (ast.unparse(last) if last is not None else None))
+    in_with = all(isinstance(b, ast.With) for b in body[:-1]) and len(body) == 2
+    v.oblige(st, z3.BoolVal(bool(in_with)), "C15:lemma:temporary-file-closed-before-the-replace",
+             "the function is `with open(tmp, 'w') ...` followed by the replace: %s" % [type(b).__name__ for b in body])
+    v.assumptions_used.add('A-RENAME')
